@@ -347,13 +347,13 @@ fn run_direct(unit: &Value, out: &mut UnitResult) {
 }
 
 /// Thread interleavings: the loom model lives in its own binary (harness/lockx).
-fn run_threads(unit: &Value, out: &mut UnitResult) {
+pub fn run_threads(unit: &Value, out: &mut UnitResult) {
     let exe = std::env::current_exe().unwrap().parent().unwrap().join("lockx");
     if !exe.exists() || crate::report::verif_root().join("build").join("lockx.failed").exists() {
         out.machinery_errors.push("the loom model (harness/lockx) is not built; see build/cargo-lockx.log".into());
         return;
     }
-    let o = std::process::Command::new(&exe).arg(unit["tier"].as_str().unwrap_or("quick")).env_remove("LD_PRELOAD").output();
+    let o = std::process::Command::new(&exe).arg(unit["tier"].as_str().unwrap_or("quick")).arg(unit["subset"].as_str().unwrap_or("all")).env_remove("LD_PRELOAD").output();
     match o {
         Ok(o) if o.status.success() => match serde_json::from_slice::<Value>(&o.stdout) {
             Ok(v) => {
